@@ -20,7 +20,7 @@ claim('C16', 'exploration',
       'exhaustive enumeration of all strings up to a length bound over class alphabets, per grammar and entry point, against independent grammar predicates',
       'Every string of length <= L over a per-grammar class alphabet (plus 255-limit and nesting-limit ladders) is run through the '
       'public validators, the internal length-taking validators (at offset 0 and embedded at a non-zero offset), the message parser and the bus '
-      '(RequestName/AddMatch); each verdict must equal an independent transcription of the specification grammar and all entry points must agree.',
+      '(RequestName/AddMatch); each verdict must equal an independent transcription of the specification grammar and all entry points must agree. Every continuation by <= 2 alphabet characters of seven names the code base treats specially (driver name, local interface and path, an error name, a unique name) goes through every route, DESTINATION and SENDER fields included.',
       'Trusts pyv/grammars.py (two independent formulations cross-checked in setup). Strings longer than the bound are covered only by the ladders.',
       'DESIGN.md section 4 C16')
 
